@@ -513,7 +513,11 @@ class dir_archive(archive):
         try: ispickle = key.startswith(PROTO) and key.endswith(STOP)
         except: ispickle = False #FIXME: protocol 0,1 don't startwith(PROTO)
         key = hash(key, 'md5') if ispickle else str(key) #XXX: always hash?
-        return key.replace('-','_')
+        key = key.replace('-','_')
+        # also hash a name that cannot be a single directory name
+        if os.sep in key or len(os.fsencode(PREFIX+key)) > 255:
+            key = hash(key, 'md5')
+        return key
        ##XXX: below probably fails on windows, and could be huge... use 'md5'
        #return repr(key)[1:-1] if ispickle else str(key) # or repr?
 
